@@ -548,6 +548,7 @@ pub fn run_case(c: &Case, c13: bool, w: &mut Walk) -> Result<(), String> {
                         Ok(()) => return Err(format!("step {i} {op:?}: ParseError::panic returned")),
                         Err(msg) => ensure!(msg.contains(&format!(" {want} byte offset")), "step {i} {op:?} failed: panic message {msg:?} does not name offset {want}"),
                     } }
+                    mark_rendered(&e, 0);
                     if base != 0 {
                         w.err_with_base = true;
                     }
@@ -585,7 +586,11 @@ thread_local! {
     static RENDERED: std::cell::RefCell<std::collections::HashSet<(usize, u8, u8, u8)>> = std::cell::RefCell::new(std::collections::HashSet::new());
 }
 fn first_rendering(e: &ParseError<'_>, which: u8) -> bool {
-    RENDERED.with(|r| r.borrow_mut().insert((e.offset(), e.error_direction() as u8, e.kind() as u8, which)))
+    RENDERED.with(|r| !r.borrow().contains(&(e.offset(), e.error_direction() as u8, e.kind() as u8, which)))
+}
+/// only a rendering that passed is remembered, so a failing case fails again when it is re-run (shrinking, replay)
+fn mark_rendered(e: &ParseError<'_>, which: u8) {
+    RENDERED.with(|r| r.borrow_mut().insert((e.offset(), e.error_direction() as u8, e.kind() as u8, which)));
 }
 
 /// errors a user-written parsing function builds "for this point in parsing" (Parser::into_error /
@@ -618,6 +623,7 @@ fn user_errors(p: &Parser<'_>, i: usize, render: bool) -> Result<(), String> {
         if kind == ErrorKind::Other {
             ensure!(text.contains(MSG), "after step {i}: {name}: Display {text:?} lacks the custom message");
         }
+        mark_rendered(&err, 1 + (kind == ErrorKind::Other) as u8);
     }
     Ok(())
 }
